@@ -307,3 +307,62 @@ register(Ctrl("ctrl-C01", "C01", set()))
 register(Ctrl("ctrl-C02", "C02", {"C02"}))
 register(Ctrl("ctrl-C03", "C03", set()))
 register(Ctrl("ctrl-C04", "C04", {"C04"}))
+
+
+class ActStep(Harness):
+    """One call of controller.act.act on an arbitrary assignment: every remote preparation entry is commanded as a transfer,
+    local ones are not, and the task sequence is sent once -- whatever the order of the entries."""
+
+    name = "act-step"
+    engine = "E1-crosshair"
+    properties = ("C02",)
+    rule = "one path = an assignment with <=3 preparation entries, each local or on one of two other hosts, in any order; non-trivial = >=2 entries of different kind"
+    assumptions = ["the bridge is a recorder"]
+    outside = []
+
+    def shards(self, tier):
+        return [{"n": n} for n in range(0, 4 if tier == "quick" else 5)]
+
+    def budget(self, tier):
+        return 60.0
+
+    def bounds(self, tier):
+        return {"preparation_entries": "0..3" if tier == "quick" else "0..4", "hosts": "the worker's own and two others"}
+
+    def functions(self):
+        return [c_act.act]
+
+    def body(self, ch, params):
+        from cascade.low.core import WorkerId
+        from cascade.scheduler.core import Assignment
+
+        with ch.untraced():
+            w = WorkerId("h0", "w1")
+            hosts = ["h0", "h1", "h2"]
+            prep = [(DatasetId(f"p{k}", "0"), hosts[ch.pick(3, f"host{k}")]) for k in range(params["n"])]
+            outs = {DatasetId("t", "0")}
+            calls = []
+
+            class Rec:
+                def transmit(self, ds, source, target):
+                    calls.append(("transmit", ds, source, target))
+
+                def task_sequence(self, ts):
+                    calls.append(("ts", ts.worker, tuple(ts.tasks), frozenset(ts.publish)))
+
+            try:
+                c_act.act(Rec(), None, Assignment(worker=w, tasks=["t"], prep=list(prep), outputs=set(outs)))
+            except Exception as e:
+                raise Violation(f"act-raised-{type(e).__name__}", str(e)[:200])
+            ch.note("prep", [(repr(d), h) for d, h in prep])
+            ch.note("nontrivial", len({h == "h0" for _, h in prep}) == 2)
+            want = [("transmit", d, h, "h0") for d, h in prep if h != "h0"]
+            got = [c for c in calls if c[0] == "transmit"]
+            if got != want:
+                raise Violation("remote-input-not-commanded", f"prep {[(repr(d), h) for d, h in prep]}: transfers {[(repr(c[1]), c[2]) for c in got]}")
+            ts = [c for c in calls if c[0] == "ts"]
+            if ts != [("ts", w, ("t",), frozenset(outs))] or calls[-1][0] != "ts":
+                raise Violation("task-sequence-not-sent-once-after-transfers", str(calls))
+
+
+register(ActStep())
